@@ -19,13 +19,15 @@ def run(prop, tier):
         xf = exe("fast")
         jobs += [(xf, ["v4all", s, 16]) for s in range(16)]
     common.parallel(lambda j: common.run_harness(j[0], j[1], acc, "addr_enum " + " ".join(map(str, j[1])), timeout=7000, crash_prop=prop), jobs)
+    from checks import indep
+    indep_rule = indep.add(prop, tier, acc)
     s = acc.stats
     cov = dict(evaluations=s.get("evaluations", 0), distinct_nontrivial=s.get("nontrivial", 0),
                rule="IPv4: every address with each octet in {0,1,126,127,128,254,255} x 8 boundary ports%s; all 65536 ports on 4 IPv4 + 1 IPv6 address; IPv6: every address with each 16-bit group in "
                     "{0,1,0xffff,0x7f00} (65536) + 15 special families x flowinfo/scope in {0,1,0xffffffff}; every string of length <= %d over {1,2,5,.,:,f,%%,space} + 32 hand-built forms; "
                     "new_from_native / to_native with every length 0..40 on exact-size heap blocks under ASan. Oracle: inet_pton / inet_ntop / getaddrinfo(AI_NUMERICHOST) of this platform. "
                     "non-trivial = cases where the conversion succeeded (accepted strings, successful length cases, all address cases)" % (" and all 2^32 IPv4 addresses" if tier == "thorough" else "", L),
-               exhaustive=True, per_mode=dict((k, v) for k, v in s.items() if k.startswith("evaluations_")))
+               exhaustive=True, independent_objects=indep_rule.strip('; '), per_mode=dict((k, v) for k, v in s.items() if k.startswith("evaluations_")))
     return common.finish(prop, tier, "exploration", acc, cov, ["the platform's resolver functions define the expected results (differential oracle)"], t0)
 
 
